@@ -18,7 +18,7 @@ func init() { Register(c08{}) }
 func (c08) ID() string    { return "C08" }
 func (c08) Level() string { return "fault_enumeration" }
 func (c08) Rule() string {
-	return "workload = valid file from a seeded fault-free writer run (strings up to 300 bytes in half of the files, page size 1..50). Cases per file: fixed chunk size c for EVERY c in 1..(largest single read the reader requests on that file) [quick: every c <= 48 and a seeded sample above; sizes above 512 and the 1-2% files of the large class (pages of 100..1200 records) are sampled in both tiers], seeded random fragmentations, random-small (1..3 bytes), len-1, one-byte-after-seek; each x eof_with_data {off,on} x source kind {ReadSeeker; +ByteReader; +ByteReader+ReaderAt+WriterTo; file-like: also Name and Stat} (thorough: all eight combinations per c; quick: one seeded combination per c). Non-trivial = at least one Read really returned fewer bytes than requested; distinct = distinct (file digest, policy, arg, eof flag, source kind)."
+	return "workload = valid file from a seeded fault-free writer run (strings up to 300 bytes in half of the files, page size 1..50). Cases per file: fixed chunk size c for EVERY c in 1..(largest single read the reader requests on that file) [quick: every c <= 48 and a seeded sample above; sizes above 512 and the 1-2% files of the large class (pages of 100..1200 records) are sampled in both tiers], seeded random fragmentations, random-small (1..3 bytes), len-1, one-byte-after-seek; one fragmentation in three also scribbles over the unused rest of the caller's buffer, as the io.Reader contract allows; each x eof_with_data {off,on} x source kind {ReadSeeker; +ByteReader; +ByteReader+ReaderAt+WriterTo; file-like: also Name and Stat} (thorough: all eight combinations per c; quick: one seeded combination per c). Non-trivial = at least one Read really returned fewer bytes than requested; distinct = distinct (file digest, policy, arg, eof flag, source kind)."
 }
 func (c08) Assumptions() []string {
 	return []string{
@@ -76,10 +76,12 @@ func (p c08) Run(runseed uint64, tier string, acc *Acc) []*core.Violation {
 			for _, e := range []bool{false, true} {
 				g := fr
 				g.EOFWithData = e
+				g.Scribble = r.Chance(1, 3)
 				frags = append(frags, g)
 			}
 		} else {
 			fr.EOFWithData = r.Chance(1, 2)
+			fr.Scribble = r.Chance(1, 3)
 			frags = append(frags, fr)
 		}
 	}
@@ -210,6 +212,13 @@ func (p c08) Check(c *core.Case) (*core.Violation, error) {
 func (p c08) Shrink(c *core.Case) []*core.Case {
 	var out []*core.Case
 	fr := *c.Frag
+	if fr.Scribble {
+		n := *c
+		g := fr
+		g.Scribble = false
+		n.Frag = &g
+		out = append(out, &n)
+	}
 	if fr.EOFWithData {
 		n := *c
 		g := fr
